@@ -40,9 +40,10 @@ CLAIMS = {
         category="proof",
         text="Deductive proof for the p2pkeswarm glue: both AcceptKey closures the swarm builds consult the whitelist (and, for outbound channels, the requested identity) before returning true; "
              "handleMessage attributes a delivered message to the fingerprint of the key returned by its channel's RemoteKey, with the transport source address and exactly the plaintext the channel returned; "
-             "getFullAddr returns a channel only after the fingerprint of its authenticated key equals the requested identity. Together with the channel contracts of C05 (AcceptKey is consulted in both roles).",
+             "getFullAddr returns a channel only after the fingerprint of its authenticated key equals the requested identity. Together with the channel contracts of C05 (AcceptKey is consulted in both roles). "
+             "quicswarm glue: a dialled session is cached and used only after the identity of its peer certificate was compared with the requested one; an accepted session is admitted only after the whitelist accepted that identity; tells and asks are attributed to the address the session was authenticated as.",
         design_ref="DESIGN.md section 5, C04 and section 10",
-        note=TRUST + "quicswarm and sshswarm attribution are NOT covered (TLS / SSH library contracts would have to be assumed wholesale; the sshswarm PublicKeyCallback issue described in DESIGN.md section 6 is not decided by this check).",
+        note=TRUST + "TLS (certificate verification, what remoteAddrFromSession reads) and the session cache are behind trusted contracts. sshswarm attribution is NOT covered (the PublicKeyCallback issue described in DESIGN.md section 6 is not decided by this check).",
     ),
     "C05": dict(
         category="proof",
@@ -122,10 +123,10 @@ CLAIMS = {
     "C16": dict(
         category="exploration",
         text="BOUNDED stand-in, not a proof and not counted as one: no contract within reach decides this property (the parsers are net/netip, regexp, strconv, base64, fmt), so the round-trip clause itself is executed on the real marshal / parse functions "
-             "over stated finite domains: udpswarm (12 IPs x 5 ports, 26 texts), sshswarm (64 key fingerprints x 4 IPs x 3 ports, 14 texts), quicswarm and p2pkeswarm nested addresses (6 ids x 8 inner addresses, 10 texts each). "
+             "over stated finite domains: udpswarm (12 IPs x 5 ports, 26 texts), sshswarm (64 key fingerprints x 4 IPs x 3 ports, 14 texts), quicswarm and p2pkeswarm nested addresses (6 ids x 8 inner addresses, 12 doubly nested, 10 texts each), multiswarm (12 addresses, 6 nested multiswarm-in-multiswarm, 8 texts). "
              "For every address: parse(marshal(a)) == a; for every text that parses: the parsed address marshals and parses back to itself.",
         design_ref="DESIGN.md section 5, C16 and section 10",
-        note="Bounded: only the enumerated cases are covered. multiswarm, memswarm and vswarm addresses are not covered. Harnesses: /verif/bounded/c16, injected with go test -overlay (nothing is written into /repo).",
+        note="Bounded: only the enumerated cases are covered. memswarm and vswarm addresses are not covered. Harnesses: /verif/bounded/c16, injected with go test -overlay (nothing is written into /repo).",
         technique="bounded stand-in for a contract clause (enumerated domain executed on the real code); labelled bounded",
     ),
     "C17": dict(
